@@ -3,6 +3,7 @@ import Lemmas.CmdlineExit
 import Lemmas.CmdlineFile
 import Lemmas.CmdlineContrast
 import Lemmas.CmdlineDecl
+import Lemmas.CmdlineFull
 /-! # C10 — command-line parsing assigns exactly what the arguments say
 
 `Cmd.scan tbl acc files args` is the model of the argument loop of `(*CmdLine).Parse`, `Cmd.parse` adds the
@@ -357,6 +358,20 @@ theorem observation_failing_set_store (k : Kind) (elems : List Str) (raw : Str) 
   intro hk
   subst hk
   exact gvSetFull_fail_direct_bool elems raw h
+
+/-- the model holds two transcriptions of `strconv.ParseInt(s, 0, bits)`: `Cmd.parseInt` (value or error; every
+    successful `Set`) and `Cmd.parseIntFull` (scan order of `ParseUint`, with the value returned BESIDE an error; what a
+    failing `Set` on `*int64` stores).  They accept exactly the same strings with the same value, for every bit size
+    of the integer kinds … -/
+theorem int_parsers_agree (bits : Nat) (hb : 2 ≤ bits) (s : Str) (v : Int) :
+    parseIntFull bits s = (v, true) ↔ parseInt bits s = some v :=
+  parseIntFull_ok bits hb s v
+
+/-- … and likewise the unsigned pair: the first offence in scan order (a bad digit, or `n*base + d` beyond the limit)
+    exists iff the unbounded digit loop fails or ends beyond the limit -/
+theorem uint_parsers_agree (bits : Nat) (s : Str) (n : Nat) :
+    parseUintFull bits s = .ok n ↔ parseUint bits s = some (n : Int) :=
+  parseUintFull_ok bits s n
 
 /-! ## malformed vectors -/
 
